@@ -403,7 +403,7 @@ pub enum Ctor {
 /// Capacities the interpreter is monomorphised for.
 pub const CAPS_SMALL: &[usize] = &[0, 1, 2, 3, 4, 5, 6, 7, 8];
 pub const CAPS_RANDOM: &[usize] =
-    &[0, 1, 2, 3, 4, 5, 6, 7, 8, 9, 13, 16, 17, 32, 33, 64, 100, 255, 256, 1000];
+    &[0, 1, 2, 3, 4, 5, 6, 7, 8, 9, 13, 16, 17, 31, 32, 33, 64, 65, 100, 128, 129, 255, 256, 1000];
 
 #[macro_export]
 macro_rules! dispatch_cap {
@@ -422,9 +422,13 @@ macro_rules! dispatch_cap {
             13 => { const $N: usize = 13; $body }
             16 => { const $N: usize = 16; $body }
             17 => { const $N: usize = 17; $body }
+            31 => { const $N: usize = 31; $body }
             32 => { const $N: usize = 32; $body }
             33 => { const $N: usize = 33; $body }
             64 => { const $N: usize = 64; $body }
+            65 => { const $N: usize = 65; $body }
+            128 => { const $N: usize = 128; $body }
+            129 => { const $N: usize = 129; $body }
             100 => { const $N: usize = 100; $body }
             255 => { const $N: usize = 255; $body }
             256 => { const $N: usize = 256; $body }
